@@ -111,8 +111,16 @@ class Oracle:
         part.sample(case, every=4001)
         # hidden-state differential: every default operation must behave the same after the rejection as before it
         post_snap = ctx.snapshot()
+        own = op.kind.split(".")[0]
+        # boundary / to-be-rejected follow-ups are tried once per (state, operation, cause): which amount class provoked the cause does not matter for
+        # what a rejection may leave behind (the snapshot dict is the same object for every call made from one state)
+        seen = snap.setdefault("_c04_seen", set())
+        with_deviations = (op.kind, cause) not in seen
+        seen.add((op.kind, cause))
         for nxt in self.world.alphabet(ctx):
-            if nxt.deviation:
+            # every default operation, and every boundary / to-be-rejected operation of the market whose call was just rejected (a rejection must not
+            # disarm the protection of the NEXT rejected call either)
+            if nxt.deviation and (nxt.kind.split(".")[0] != own or not with_deviations):
                 continue
             o1 = kit.apply(ctx, nxt)
             r1 = ctx.raw()
